@@ -266,29 +266,40 @@ Definition attachmentReservationPath (fileName token : bytes) : bytes :=
 Definition memb (p : bytes) (fs : list bytes) : bool := existsb (leqb p) fs.
 Definition fsRemove (p : bytes) (fs : list bytes) : list bytes := filter (fun q => negb (leqb p q)) fs.
 
-(* reserveAttachmentOutputs: returns (file system, reservations made so far, success) *)
-Fixpoint reserve (fs : list bytes) (token : bytes) (paths rr : list bytes) : list bytes * list bytes * bool :=
+(* reserveAttachmentOutputs: returns (file system, reservations made so far, status):
+   status 0 = all reserved, 1 = os.ErrExist on a marker (ErrAttachmentOutputCollision),
+   2 = any other OpenFile error on a marker ("reserve output ...", e.g. ENAMETOOLONG).
+   failsOther says for which marker paths the O_EXCL create fails with a non-EEXIST error; it is
+   an arbitrary predicate in the theorems.  Both error branches `return rr, err`. *)
+Fixpoint reserve (failsOther : bytes -> bool) (fs : list bytes) (token : bytes) (paths rr : list bytes)
+  : list bytes * list bytes * N :=
   match paths with
-  | [] => (fs, rr, true)
+  | [] => (fs, rr, 0)
   | p :: t =>
     let rp := attachmentReservationPath p token in
-    if memb rp fs then (fs, rr, false)
-    else reserve (rp :: fs) token t (rr ++ [rp])
+    if failsOther rp then (fs, rr, 2)
+    else if memb rp fs then (fs, rr, 1)
+    else reserve failsOther (rp :: fs) token t (rr ++ [rp])
   end.
 
 Definition release (fs rr : list bytes) : list bytes := fold_left (fun f r => fsRemove r f) rr fs.
 
 Definition fsWrite (fs : list bytes) (p : bytes) : list bytes := if memb p fs then fs else p :: fs.
 
-(* writeAttachments: (final file system, output files written in order, success).
-   Writing itself is assumed to succeed (I/O errors are outside the model). *)
-Definition writeAttachments (fs : list bytes) (outDir : bytes) (names : list bytes) (token : bytes)
-  : list bytes * list bytes * bool :=
+(* writeAttachments: (final file system, output files written in order, status).
+   err != nil from reserveAttachmentOutputs => return errors.Join(err, release(rr)) before the
+   write loop.  Writing itself is assumed to succeed (I/O errors are outside the model). *)
+Definition writeAttachments (failsOther : bytes -> bool) (fs : list bytes) (outDir : bytes)
+  (names : list bytes) (token : bytes) : list bytes * list bytes * N :=
   let paths := attachmentOutputPaths outDir names in
-  match reserve fs token paths [] with
-  | (fs1, rr, false) => (release fs1 rr, [], false)
-  | (fs1, rr, true) => (release (fold_left fsWrite paths fs1) rr, paths, true)
+  match reserve failsOther fs token paths [] with
+  | (fs1, rr, 0) => (release (fold_left fsWrite paths fs1) rr, paths, 0)
+  | (fs1, rr, st) => (release fs1 rr, [], st)
   end.
+
+(* the concrete non-EEXIST failure of a Linux file system: last path element longer than
+   NAME_MAX = 255 bytes (ENAMETOOLONG); used by the harness instance *)
+Definition nameTooLong (p : bytes) : bool := Nat.ltb 255 (length (baseOf p)).
 
 (* ------------------------------------------------------------------ other call sites *)
 (* api/extract.go sanitizeFilenamePart = sanitize.PathOr; compositions with fmt.Sprintf.
